@@ -32,6 +32,11 @@ def run(chk, ctx) -> None:
     _equities(chk, ctx, mi)
     _icm(chk, ctx, mi)
     _statistics(chk, ctx)
+    # "equal to the split the engine itself would pay": a sample is scored with Hand.from_game_or_none, which is from_game (the
+    # engine's evaluator) with None for "no hand" and nothing else - no memo, no reordering
+    from . import c05
+    from .helpers import Refile
+    c05.run(Refile(chk, {'C05.errors': 'C18.shares'}, only=lambda r, c: c == 'Hand.from_game_or_none'), ctx)
 
 
 def _cases(pr):
